@@ -24,6 +24,9 @@ mod vfs;
 mod vlog;
 mod wal;
 
+#[cfg(surrealkv_verif)]
+pub mod verif;
+
 #[cfg(test)]
 mod test;
 
